@@ -4,6 +4,7 @@ import TxV.Model.SocksPort
 Driver for C18.
   create <noanswer|unset:<hex>|lines:<hex>,…> <requested hex|~> <freeport hex>
   config <hex>,…|- <requested hex|~>
+  sync <hex>,…|- <requested hex|~>
   fallback <p>,<p>… <ok|ce:<t>|oe:<t>>,…|-
 -/
 namespace TxV.Drv.C18
@@ -50,6 +51,10 @@ def step (_ : Unit) (line : String) : Unit × String :=
   | ["config", ls, req] =>
     match decLines ls, decOpt req with
     | some l, some r => ((), showResult (configCreate l r))
+    | _, _ => ((), "bad-op")
+  | ["sync", ls, req] =>
+    match decLines ls, decOpt req with
+    | some l, some r => ((), match configSync l r with | some e => "ep=" ++ showEndpoint e | none => "ep=none")
     | _, _ => ((), "bad-op")
   | ["fallback", ps, outs] =>
     match (ps.splitOn ",").mapM String.toNat?, (if outs = "-" then some [] else (outs.splitOn ",").mapM decAttempt) with
